@@ -135,6 +135,8 @@ const EXTS: &[&'static str] = &["decimal", "ipaddr", "datetime", "duration"];
 struct TyGen<'a> {
     /// entity types that may be referenced (qualified names)
     etypes: &'a [String],
+    /// the enumerated ones among them
+    enums: &'a [String],
     commons: &'a [(String, STy)],
 }
 
@@ -144,14 +146,17 @@ impl TyGen<'_> {
             let (n, t) = r.pick(self.commons);
             return STy::Common(n.clone(), Box::new(t.clone()));
         }
-        let k = if depth == 0 { r.below(8) } else { r.below(11) };
+        let k = if depth == 0 { r.below(8) } else { r.below(13) };
         match k {
             0 => STy::Bool,
             1 | 2 => STy::Long,
             3 => STy::Str,
-            4 | 5 => STy::Entity(r.pick(self.etypes).clone()),
+            4 | 5 => {
+                let enums: Vec<&String> = self.etypes.iter().filter(|t| self.enums.contains(t)).collect();
+                if !enums.is_empty() && r.chance(45) { STy::Entity((*r.pick(&enums)).clone()) } else { STy::Entity(r.pick(self.etypes).clone()) }
+            }
             6 | 7 => STy::Ext(*r.pick(EXTS)),
-            8 => STy::Set(Box::new(self.gen(r, depth - 1))),
+            8 | 9 => STy::Set(Box::new(self.gen(r, depth - 1))),
             _ => STy::Record(self.gen_attrs(r, depth - 1, 3)),
         }
     }
@@ -204,6 +209,7 @@ pub fn gen_schema_spec(r: &mut Rng) -> SchemaSpec {
         etypes.push(ETypeSpec { name: qualify(&ns, &base), ns, base, member_of: vec![], attrs: vec![], tags: None, enum_ids: Some(ids) });
     }
     let all_names: Vec<String> = etypes.iter().map(|e| e.name.clone()).collect();
+    let enum_names: Vec<String> = etypes.iter().filter(|e| e.enum_ids.is_some()).map(|e| e.name.clone()).collect();
     // common types (may reference entity types; the second may reference the first)
     let mut commons: Vec<CommonSpec> = Vec::new();
     let mut common_defs: Vec<(String, STy)> = Vec::new();
@@ -211,7 +217,7 @@ pub fn gen_schema_spec(r: &mut Rng) -> SchemaSpec {
     for i in 0..n_common {
         let ns = r.pick(&namespaces).clone();
         let base = format!("CT{i}");
-        let tg = TyGen { etypes: &all_names, commons: &common_defs };
+        let tg = TyGen { etypes: &all_names, enums: &enum_names, commons: &common_defs };
         let ty = if r.chance(50) { STy::Record(tg.gen_attrs(r, 1, 3)) } else { tg.gen(r, 1) };
         common_defs.push((qualify(&ns, &base), ty.clone()));
         commons.push(CommonSpec { ns, base, ty });
@@ -229,7 +235,7 @@ pub fn gen_schema_spec(r: &mut Rng) -> SchemaSpec {
     }
     // shapes and tags
     for i in 0..n_std {
-        let tg = TyGen { etypes: &all_names, commons: &common_defs };
+        let tg = TyGen { etypes: &all_names, enums: &enum_names, commons: &common_defs };
         etypes[i].attrs = tg.gen_attrs(r, 2, 5);
         if r.chance(45) {
             etypes[i].tags = Some(tg.gen(r, 1));
@@ -257,7 +263,7 @@ pub fn gen_schema_spec(r: &mut Rng) -> SchemaSpec {
                 member_of.push(j);
             }
         }
-        let tg = TyGen { etypes: &all_names, commons: &common_defs };
+        let tg = TyGen { etypes: &all_names, enums: &enum_names, commons: &common_defs };
         let pick_types = |r: &mut Rng| -> Vec<String> {
             let mut v: Vec<String> = Vec::new();
             let k = 1 + r.below(2);
@@ -664,6 +670,15 @@ pub fn action_entity(spec: &SchemaSpec, i: usize) -> DEntity {
     }
 }
 
+/// the action entity with its *direct* `memberOf` parents only (as the schema text declares it), for actions that
+/// have further, indirect ancestors
+pub fn action_entity_direct(spec: &SchemaSpec, i: usize) -> Option<DEntity> {
+    if spec.action_ancestors(i).len() == spec.actions[i].member_of.iter().collect::<BTreeSet<_>>().len() {
+        return None;
+    }
+    Some(DEntity { uid: spec.actions[i].uid(), attrs: vec![], parents: spec.actions[i].member_of.iter().map(|&j| spec.actions[j].uid()).collect(), tags: vec![] })
+}
+
 /// a request conforming to a random action that applies to something
 pub fn gen_request(r: &mut Rng, spec: &SchemaSpec) -> DRequest {
     let cands: Vec<&ActionSpec> = spec.actions.iter().filter(|a| a.applies.is_some()).collect();
@@ -935,9 +950,20 @@ pub fn mutate_entity(r: &mut Rng, spec: &SchemaSpec, e: &DEntity, fault: Fault) 
                 match r.below(4) {
                     0 => m.attrs.push(("extra".into(), DVal::Long(1))),
                     1 => m.tags.push(("k1".into(), DVal::Long(1))),
-                    2 if !m.parents.is_empty() => {
-                        let i = r.below(m.parents.len());
-                        m.parents.remove(i);
+                    2 if !spec.actions[ai].member_of.is_empty() => {
+                        // drop a direct parent together with everything only reachable through it, so that no
+                        // transitive-closure computation over the collection can bring the ancestor back
+                        let drop = *r.pick(&spec.actions[ai].member_of);
+                        let mut keep: BTreeSet<usize> = BTreeSet::new();
+                        for &j in spec.actions[ai].member_of.iter().filter(|&&j| j != drop) {
+                            keep.insert(j);
+                            keep.extend(spec.action_ancestors(j));
+                        }
+                        if keep.contains(&drop) {
+                            m.attrs.push(("extra".into(), DVal::Long(1)));
+                        } else {
+                            m.parents = keep.into_iter().map(|j| spec.actions[j].uid()).collect();
+                        }
                     }
                     _ => {
                         // an extra (declared) action as ancestor
